@@ -43,7 +43,42 @@ def bounds(tier):
 
 
 def units(tier, seed):
-    return c03.units(tier, seed)
+    return c03.units(tier, seed) + [dict(large=True, n_items=k, tier=tier) for k in (18001, 70000)]
+
+
+def run_large_case(n_items, dist):
+    """MANY labels (more than 2**14 and 2**16, not a multiple of either): inflow-driven -> stock-driven (both solvers) ->
+    the original inflow, compared as whole arrays"""
+    import numpy as np
+
+    import flodym
+
+    case = dict(large=True, n_items=n_items, dist=dist)
+    grid = (2000, 2001, 2003, 2004)
+    extra = [("p", n_items)]
+    dims = dsm_impl.make_dims(grid, extra)
+    j = np.arange(n_items)
+    prms = {"NormalLifetime": dict(mean=flodym.FlodymArray(dims=dims[("p",)], values=3.0 + (j % 97) / 50.0), std=1.0), "WeibullLifetime": dict(weibull_shape=1.5, weibull_scale=flodym.FlodymArray(dims=dims[("p",)], values=4.0 + (j % 89) / 40.0))}[dist]
+    inflow = 5.0 + ((3 * np.arange(4)[:, None] + j[None, :]) % 7)
+
+    def go():
+        fwd = flodym.InflowDrivenDSM(dims=dims, lifetime_model=getattr(flodym, dist)(dims=dims, **prms), inflow=flodym.StockArray(dims=dims, values=inflow.copy()))
+        fwd.compute()
+        scale = float(np.abs(fwd.stock.values).max())
+        for solver in ("manual", "lapack"):
+            back = flodym.StockDrivenDSM(dims=dims, lifetime_model=getattr(flodym, dist)(dims=dims, **prms), stock=flodym.StockArray(dims=dims, values=fwd.stock.values.copy()), solver=solver)
+            back.compute()
+            for nm, a, b in (("inflow", inflow, back.inflow.values), ("outflow", fwd.outflow.values, back.outflow.values), ("stock by cohort", fwd.get_stock_by_cohort(), back.get_stock_by_cohort()), ("outflow by cohort", fwd.get_outflow_by_cohort(), back.get_outflow_by_cohort())):
+                bad = np.argwhere(~(np.abs(a - b) <= 1e-9 * scale))
+                if len(bad):
+                    idx = tuple(int(x) for x in bad[0])
+                    return f"{nm} of the inflow-driven model vs stock-driven/{solver} differs at {idx}: {float(a[idx])!r} vs {float(b[idx])!r} ({len(bad)} entries)"
+        return None
+
+    st, d = attempt(go)
+    if st == "raised" or d:
+        return "fail", dict(case=case, tags=dict(mode="A", dist=dist, variant="large"), what=f"A {dist}, grid {list(grid)}, {n_items} labels: {('raised ' + str(d)) if st == 'raised' else d}")
+    return "inverse-and-solvers-agree (large)", None
 
 
 TOL_NOW = [1e-9]  # tolerance of the current case (conditioning-aware, see run_case)
@@ -84,7 +119,7 @@ def run_case(mode, grid, li, quad, ei, pair, drv, variant):
         return "skipped-ill-conditioned", None
     d = dsm_impl.driver_series(drv, n, extra)
     int_dtype = variant == "int"
-    pass_arrays = variant == "arrays"
+    pass_arrays = "F" if variant == "arraysF" else (variant == "arrays")
     past = variant == "past"  # every model was computed before with other parameters and another driver
 
     def go():
@@ -153,6 +188,16 @@ DRV_B = ["inc", "dec", "hump", "mid0", "tail0", "hump@tiny", "inc@huge"]
 
 def run_unit(u):
     tier = u["tier"]
+    if u.get("large"):
+        res = dict(evals=0, nontrivial=0, outcomes={}, fails=[], samples=[])
+        for dist in ("NormalLifetime", "WeibullLifetime"):
+            oc, f = run_large_case(u["n_items"], dist)
+            res["evals"] += 1
+            res["nontrivial"] += 1
+            res["outcomes"][oc] = res["outcomes"].get(oc, 0) + 1
+            if f:
+                res["fails"].append(f)
+        return res
     grid, li = u["grid"], u["lt"]
     n = len(grid)
     res = dict(evals=0, nontrivial=0, outcomes={}, fails=[], samples=[])
@@ -172,7 +217,7 @@ def run_unit(u):
                 jobs = [("A", drv, "plain") for drv in DRV_A + imps]
                 jobs += [("B", drv, "plain") for drv in DRV_B + imps]
                 if qi in (0, 1):
-                    jobs += [("B", drv, "int") for drv in ("inc", "dec", "hump")] + [("A", "pos", "arrays"), ("B", "dec", "arrays"), ("A", "pos2", "past"), ("B", "hump", "past")]
+                    jobs += [("B", drv, "int") for drv in ("inc", "dec", "hump")] + [("A", "pos", "arrays"), ("B", "dec", "arrays"), ("A", "pos2", "arraysF"), ("B", "hump", "arraysF"), ("A", "pos2", "past"), ("B", "hump", "past")]
                 if qi in (0, 3):
                     jobs += [("A", "pos", "convert")]
                 for mode, drv, variant in jobs:
@@ -188,5 +233,8 @@ def run_unit(u):
 
 
 def replay(case):
+    if case.get("large"):
+        oc, f = run_large_case(case["n_items"], case["dist"])
+        return [f] if f else []
     oc, f = run_case(case["mode"], case["grid"], case["lt"], tuple(case["quad"]), case["ei"], tuple(case["pair"]), case["drv"], case["variant"])
     return [f] if f else []
